@@ -5,7 +5,7 @@
    fixes/C16-bridge-traffic-report-mutex.diff); the pinned code is refuted by witness schedules.
    StreamProcessor is stated for the repaired code of commit cedd5da (onClose keeps reader / writer), pinned code refuted.
    "No goroutine or timer remains" and "no panic" of the real runtime are checked by the harness oracle only (partial). *)
-From TX Require Import Model.Shutdown Proofs.Shutdown Proofs.SideC16 Gen.C16.
+From TX Require Import Model.Shutdown Proofs.Shutdown Proofs.ShutdownLife Proofs.SideC16 Gen.C16.
 From Coq Require Import ZArith.
 
 (* (1) handlers_once — dispose.Dispose.  hs0 = handlers registered before anything runs; threads = any mix of Close callers
@@ -164,11 +164,62 @@ Theorem C16_read_concurrent_with_close_refuted :
 Proof. exact read_concurrent_with_close_panics_refuted. Qed.
 Print Assumptions C16_read_concurrent_with_close_refuted.
 
-(* non-vacuity: concrete thread lists satisfy the hypotheses of (1), (2), (3), (4) *)
+(* (5) start_close — Tunnel.Start against Tunnel.Close over {state, context, dispose latch} (Model section E, repository
+   order: SetCtx before the Connecting->Connected CAS; `spawns` go statements).  ANY number of Start calls and Close calls,
+   ANY interleaving of their atomic steps (so in particular a complete Close at every point inside Start):
+   a goroutine is never started without a context, onClosed never runs twice, and once every call has returned (and somebody
+   closed) the tunnel is Closed, onClosed ran exactly once and nothing started by Start is alive (its context is cancelled). *)
+Theorem C16_start_close_leaves_nothing_running :
+  forall (spawns : nat) (ts : list epc) (sched : list nat),
+  forallb (e_initial true) ts = true ->
+  let s := erun true spawns ts sched in
+  (0 < e_spawned (fst s) -> e_ctx (fst s) <> 0) /\ e_cb (fst s) <= 1 /\
+  (forallb e_returned (snd s) = true -> existsb e_is_closer (snd s) = true ->
+     e_state (fst s) = 3 /\ e_cb (fst s) = 1 /\ e_monitors_alive (fst s) = false).
+Proof. intros spawns ts sched H. exact (start_close_all_schedules spawns ts sched H). Qed.
+Print Assumptions C16_start_close_leaves_nothing_running.
+
+(* the CAS moved ahead of SetCtx: a complete Close between the two steps finds no context to cancel; Start then creates a
+   fresh never-cancelled context, re-opens the latch, returns nil and starts the monitors of a tunnel that is already Closed *)
+Theorem C16_cas_before_setctx_refuted :
+  exists sched,
+    let s := erun false 3 [EStartCas; ELoad] sched in
+    forallb e_returned (snd s) = true /\ e_state (fst s) = 3 /\ e_cb (fst s) = 1 /\
+    nth_error (snd s) 0 = Some (EStartRet true) /\ e_monitors_alive (fst s) = true /\ e_latch (fst s) = false.
+Proof. exact cas_before_setctx_refuted. Qed.
+Print Assumptions C16_cas_before_setctx_refuted.
+
+(* (6) close_not_blocked_by_io — Bridge.Close against forwarding writes to stalled peers (Model section F, repository shape:
+   dynamicSourceWriter releases sourceConnMu before it calls the forwarder's Write).  ANY number of writes, each to a stalled
+   peer or not, ANY number of Close calls, ANY schedule so far: no thread holds the read lock across the blocking Write, and
+   from the state reached there is a continuation in which every Close has returned — Close never waits on something held
+   across a blocking I/O call, so any fair scheduler completes it. *)
+Theorem C16_close_completes_despite_stalled_writes :
+  forall (ts : list fth) (pre : list nat),
+  forallb f_initial ts = true ->
+  let s := run _ _ (fstep false) (finit, ts) pre in
+  Forall f_releasing (snd s) /\
+  (exists sched, forallb (fun t => negb (f_close_pending t)) (snd (run _ _ (fstep false) s sched)) = true).
+Proof. intros ts pre H. exact (close_completes_despite_stalled_writes ts pre H). Qed.
+Print Assumptions C16_close_completes_despite_stalled_writes.
+
+(* the read lock held across the Write (deferred RUnlock): the write to a stalled peer parks holding the lock, Close waits
+   for the lock, and the only step that would release the write — closing the forwarder — is behind that lock: no schedule
+   moves any thread again, and a Close is pending forever *)
+Theorem C16_lock_held_across_write_refuted :
+  exists pre,
+    let s := run _ _ (fstep true) (finit, [ {| f_stall := true; f_pc := WLock |}; {| f_stall := false; f_pc := KLock |} ]) pre in
+    (forall sched, run _ _ (fstep true) s sched = s) /\ existsb f_close_pending (snd s) = true.
+Proof. exact lock_held_across_write_refuted. Qed.
+Print Assumptions C16_lock_held_across_write_refuted.
+
+(* non-vacuity: concrete thread lists satisfy the hypotheses of (1) - (6) *)
 Theorem C16_premises_satisfiable :
   forallb d_initial [DStart; DStart; AAdd {| h_id := 7; h_fail := true |}; DStart] = true /\
   forallb t_initial [ {| t_notify := true; t_pc := TLoad |}; {| t_notify := false; t_pc := TLoad |}; {| t_notify := true; t_pc := TStartCas |} ] = true /\
   forallb r_initial [CAdd [100%Z; 0%Z; 5%Z]; RLock; RLock; RLock] = true /\
-  forallb p_initial [PClose; OStart; PClose; OStart; OStart] = true.
-Proof. exact (conj eq_refl (conj eq_refl (conj eq_refl eq_refl))). Qed.
+  forallb p_initial [PClose; OStart; PClose; OStart; OStart] = true /\
+  forallb (e_initial true) [ESetCtx; ELoad; ELoad; ESetCtx] = true /\
+  forallb f_initial [ {| f_stall := true; f_pc := WLock |}; {| f_stall := false; f_pc := WLock |}; {| f_stall := false; f_pc := KLock |} ] = true.
+Proof. exact (conj eq_refl (conj eq_refl (conj eq_refl (conj eq_refl (conj eq_refl eq_refl))))). Qed.
 Print Assumptions C16_premises_satisfiable.
